@@ -134,16 +134,23 @@ def double_include(rng, lines):
 
 
 def with_defines(rng, lines):
-    """Insert a definition and use it in a string-like value."""
+    """Insert a definition and use it in one or two string-like values; sometimes define the name a second time,
+    with the same or with another value (the cuts then put the definitions and the uses on different sides of
+    include boundaries, at top level and inside sections: one namespace, in reading order, write-once)."""
     lines = list(lines)
     idx = [i for i, l in enumerate(lines) if l.strip().endswith(" v1") or l.strip().endswith(" V2")]
     if not idx:
         return lines
-    i = rng.choice(idx)
     name = rng.choice(["d1", "D1", "dx"])
-    lines[i] = lines[i].rsplit(" ", 1)[0] + " $" + name
+    for i in rng.sample(idx, min(len(idx), rng.choice([1, 1, 2]))):
+        lines[i] = lines[i].rsplit(" ", 1)[0] + " " + rng.choice(["$" + name, "${" + name.upper() + "}"])
     pos = rng.randint(0, len(lines))       # before or (sometimes) after the use
     lines.insert(pos, "%define " + name.lower() + " v1")
+    r = rng.random()
+    if r < 0.25:
+        lines.insert(rng.randint(0, len(lines)), "%define " + name.upper() + " V2")      # conflicting
+    elif r < 0.45:
+        lines.insert(rng.randint(0, len(lines)), "%define " + name.capitalize() + " v1")  # equal: accepted
     return lines
 
 
@@ -225,8 +232,14 @@ def run(chk):
                     lines.insert(rng.choice(tops), e)
             if rng.random() < 0.5:
                 lines = textgen.damage(rng, lines, vocab, rng.choice([1, 2]))
-            if rng.random() < 0.35:
+            if rng.random() < 0.45:
                 lines = with_defines(rng, lines)
+            if rng.random() < 0.25:
+                # a comment holding a character at which str.splitlines() and text-mode files - but neither
+                # readline() on the decoded text nor the grammar - end a line
+                odd = rng.choice(["\x0c", "\x85", "\u2028", "\r", "\x0b", "\x1c", "\r"])
+                at = rng.randint(0, len(lines))
+                lines = lines[:at] + ["# page" + odd + "break"] + lines[at:]
             base = sc.add(sid, {"d/main.conf": lines}, meta={"nontrivial": False})
             for v in range(4):
                 c = cut(rng, {"d/main.conf": lines}, rng.choice([1, 2, 3]))
